@@ -1,11 +1,12 @@
 (* X86Unw.v - the x86_64 unwinder instance: module data kinds and unwind_frame_impl. *)
-From FH Require Export Word X86 DwarfRow Cfi Unwinder X86Dwarf DwarfCb Pe.
+From FH Require Export Word X86 DwarfRow Cfi Unwinder X86Dwarf DwarfCb Pe Macho MachoCb.
 Open Scope N_scope.
 
 Inductive mdata :=
 | MNone
 | MDwarf (p : pres) (sec : list fde)
-| MPe (pe : pe_data).
+| MPe (pe : pe_data)
+| MMacho (d : macho_data).
 
 Definition xmodule := module mdata.
 
@@ -19,6 +20,9 @@ Definition cb_x86 (md : xmodule) (first : bool) (rel : N) (rg : regs) (m : mem)
   | MDwarf p sec =>
     cb_dwarf rule regs row_step_x86 uncovered_rule_x86 true p sec (base_svma md) first rel rg m
   | MPe pe => pe_step true pe rel first rg m
+  | MMacho d =>
+    cb_macho rule regs row_step_x86 uncovered_rule_x86 x86_macho_unwind JustReturn JustReturn x86_stub_helper_rule
+             d (base_svma md) first rel rg m
   end.
 
 Definition xunwinder := unwinder mdata.
